@@ -7,7 +7,7 @@ MANIFEST = {
             "then clean EOF), C38_read_exact and C38_read_independent_of_rest (a Read consumes exactly header+declared length; its result does not depend on "
             "what follows), C38_read_total (every byte stream gives frame/EOF/error, the header loop terminates), C38_read_err_consumes, C38_header_rules / "
             "C38_header_rejections (last Content-Length wins, unknown headers ignored, <=0 / unparsable / missing rejected). Message layer PARTIAL over an abstract "
-            "injective JSON codec: C38_msg_roundtrip_partial, C38_stream_roundtrip_partial (requests with a method, responses with an id, integer ids up to 2^53), "
+            "injective JSON codec: C38_msg_roundtrip_partial, C38_stream_roundtrip_partial, C38_relay_roundtrip_partial / C38_relay_bytes_partial (decode(encode(decode bytes)) = decode bytes, error data included) (requests with a method, responses with an id, integer ids up to 2^53), "
             "with machine-checked counterexamples to the full statement: C38_int_id_beyond_2p53_changes (ids decoded through float64) and "
             "C38_length_2p31_not_readable (32-bit Content-Length). Both are replayed on the real code and recorded as known findings.",
     "note": "trusted: Lean kernel; the model of the Go library calls (bufio/strings/strconv/io/fmt) is hand-written and tied by the differential run; encoding/json is an "
@@ -19,7 +19,7 @@ MANIFEST = {
 RULE = ("message sequences (0-5 messages: calls, notifications, responses; int ids incl. beyond 2^53 and the int64 extremes, string ids, unicode methods, raw params/"
         "results in non-compact form, wire/plain/wrapped errors, degenerate messages) written by the real Writer and read back by the real Reader fed one byte at a time; "
         "mutated copies of such streams (bit flips, deletions, insertions, truncation, duplicated slices, changed length digits, inserted header lines, CRLF->LF); "
-        "synthetic header blocks (name/space/sign/size variants incl. Unicode spaces and 32-bit limits); short garbage; fixed corner streams; int64 ids through "
+        "relay runs (hand-built wire texts: all id spellings, error objects with data of every JSON kind, unknown/duplicate/misplaced members, shuffled member order and white space -> real Reader -> real Writer -> real Reader; pass 1 = pass 2 and written payload = original up to the stated normalisation); synthetic header blocks (name/space/sign/size variants incl. Unicode spaces and 32-bit limits); short garbage; fixed corner streams; int64 ids through "
         "Encode->Decode. Non-trivial = distinct case with >= 2 messages or a non-empty stream")
 
 
